@@ -152,3 +152,9 @@ def run(ctx: Ctx):
     util.same_as_reference(ctx, "R16.b", "ode.py", "ODE.remove_singularities", REF_ODE_REMOVE, "model-wide-lookup", "every component is rewritten, states are looked up in the whole model", "ODE.remove_singularities does not rewrite every component with the model-wide lookup table: a dependency on a state of another component would never be examined")
     util.same_as_reference(ctx, "R16.b", "ode_component.py", "Component.remove_singularities", REF_COMPONENT_REMOVE, "every-assignment", "every assignment is rewritten", "Component.remove_singularities does not rewrite every assignment (or drops states / parameters)")
     util.same_as_reference(ctx, "R16.b", "atoms.py", "Assignment.remove_singularities", REF_ASSIGNMENT_REMOVE, "apply", "remove_singularities(self.expr, its singularities); everything else copied", "Assignment.remove_singularities does not rewrite self.expr with its own singularities while keeping the other fields")
+
+    ctx.rule("R16.c", "what is found and removed is a function of the model handed in: no function of atoms.py / ode_component.py keeps results in (or reads them back from) module-level state (statefulness of a name depends on the model's symbol table, not on the assignment alone)", floor=2)
+    from .c09 import global_mutations
+
+    global_mutations(ctx, "R16.c", only_rel="atoms.py")
+    global_mutations(ctx, "R16.c", only_rel="ode_component.py")
